@@ -233,6 +233,12 @@ theorem Src.read_spec (s : Src) (n : Nat) :
   · simp only [List.take_append_drop, List.length_take, true_and]; omega
   · simp only [List.take_append_drop, List.length_take, true_and]; omega
 
+theorem Src.read_nonempty (s : Src) (n : Nat) (hn : 1 ≤ n) (hr : s.rest ≠ []) : (s.read n).2 ≠ [] := by
+  unfold Src.read
+  split
+  · simp only [ne_eq, List.take_eq_nil_iff, not_or]; exact ⟨by omega, hr⟩
+  · simp only [ne_eq, List.take_eq_nil_iff, not_or]; exact ⟨by omega, hr⟩
+
 theorem Stream.toBuf_unread (a : Stream) (h : a.Inv) : a.toBuf.unread = a.acc.length - a.cur := by
   have h2 := h.low_cur; have h3 := h.cur_acc
   rcases h.low_mode with h0 | hc
@@ -444,51 +450,202 @@ theorem Rel.pending {S : Bytes} {w : World} {a : Stream} (r : Rel S w a) :
 
 /-! ### the HTTP (PatchedIceCastClient) stacking -/
 
-theorem Rel.feed {S : Bytes} {w : World} {a : Stream} (r : Rel S w a) (blk : Nat) :
-    ∃ a', Rel S (w.feed blk) a' ∧ a'.cur = a.cur := by
-  unfold World.feed
+/-- the world as the consumer's reference sees it: a fetched-but-unstored chunk still
+    counts as "in the source" -/
+def IWorld.virt (iw : IWorld) : World :=
+  { b := iw.w.b, src := { rest := iw.held ++ iw.w.src.rest, ks := iw.w.src.ks } }
+
+structure IRel (S : Bytes) (iw : IWorld) (a : Stream) : Prop where
+  rel : Rel S iw.virt a
+  room : iw.held.length ≤ a.size - (a.acc.length - a.low)
+
+theorem Stream.get_keeps (a : Stream) (h : a.Inv) (n : Nat) :
+    (a.get n).1.acc = a.acc ∧ (a.get n).1.size = a.size ∧ a.low ≤ (a.get n).1.low := by
+  have h2 := h.low_cur
+  refine ⟨rfl, rfl, ?_⟩
+  simp only [Stream.get]
   split
-  · rename_i hf
-    rw [r.buf, Stream.toBuf_fits] at hf
-    have hf' : a.acc.length - a.low + blk ≤ a.size := by simpa using hf
-    obtain ⟨a', r', hc, _⟩ := r.pull blk (by omega)
-    exact ⟨a', r', hc⟩
+  · exact Nat.le_refl _
+  · split
+    · rename_i hc; omega
+    · omega
+
+theorem Stream.seek_keeps (a : Stream) (p : Nat) :
+    (a.seek p).1.acc = a.acc ∧ (a.seek p).1.size = a.size ∧ (a.seek p).1.low = a.low := by
+  unfold Stream.seek
+  split
+  · exact ⟨rfl, rfl, rfl⟩
+  · split <;> exact ⟨rfl, rfl, rfl⟩
+
+theorem Stream.setProtected_keeps (a : Stream) (b : Bool) :
+    (a.setProtected b).1.acc = a.acc ∧ (a.setProtected b).1.size = a.size ∧
+      (a.setProtected b).1.low = a.low ∧ (a.setProtected b).1.cur = a.cur := by
+  unfold Stream.setProtected
+  split
+  · exact ⟨rfl, rfl, rfl, rfl⟩
+  · split <;> exact ⟨rfl, rfl, rfl, rfl⟩
+
+theorem IRel.fetch {S : Bytes} {iw : IWorld} {a : Stream} (r : IRel S iw a) (blk : Nat) :
+    IRel S (iw.fetch blk).1 a := by
+  unfold IWorld.fetch
+  split
+  · exact r
+  · rename_i hno
+    have hnone : iw.chunk = none := by
+      cases hc : iw.chunk with
+      | none => rfl
+      | some d => simp [hc] at hno
+    split
+    · rename_i hf
+      have hs := Src.read_spec iw.w.src blk
+      have hb : iw.w.b = a.toBuf := r.rel.buf
+      rw [hb, Stream.toBuf_fits] at hf
+      have hf' : a.acc.length - a.low + blk ≤ a.size := by simpa using hf
+      refine ⟨⟨r.rel.buf, r.rel.inv, ?_⟩, ?_⟩
+      · have := r.rel.src
+        simp only [IWorld.virt, IWorld.held, hnone, Option.getD_none, List.nil_append] at this
+        simp only [IWorld.virt, IWorld.held, Option.getD_some, hs.1]
+        exact this
+      · simp only [IWorld.held, Option.getD_some]
+        have := hs.2
+        omega
+    · exact r
+
+theorem IRel.store {S : Bytes} {iw : IWorld} {a : Stream} (r : IRel S iw a) :
+    ∃ a', IRel S iw.store.1 a' ∧ a'.cur = a.cur := by
+  unfold IWorld.store
+  split
+  · rename_i d hd
+    have hroom : d.length ≤ a.size - (a.acc.length - a.low) := by
+      have := r.room; simpa [IWorld.held, hd] using this
+    have ha := Stream.add_all a d hroom
+    refine ⟨(a.add d).1, ⟨⟨?_, Stream.add_inv a r.rel.inv d, ?_⟩, ?_⟩, ha.2⟩
+    · have hb : iw.w.b = a.toBuf := r.rel.buf
+      simp only [IWorld.virt, hb, Stream.add_refines a r.rel.inv]
+    · have := r.rel.src
+      simp only [IWorld.virt, IWorld.held, hd, Option.getD_some] at this
+      simp only [IWorld.virt, IWorld.held, Option.getD_none, List.nil_append, ha.1, List.append_assoc]
+      exact this
+    · simp [IWorld.held]
   · exact ⟨a, r, rfl⟩
 
-theorem Rel.istep {S : Bytes} {w : World} {a : Stream} (r : Rel S w a) (op : IOp) :
-    ∃ a', Rel S (w.istep op).1 a' ∧ IRef.next S a.cur (op, (w.istep op).2) = some a'.cur := by
+theorem IRel.feed {S : Bytes} {iw : IWorld} {a : Stream} (r : IRel S iw a) (blk : Nat) :
+    ∃ a', IRel S (iw.feed blk).1 a' ∧ a'.cur = a.cur := by
+  unfold IWorld.feed
+  split
+  · exact (r.fetch blk).store
+  · exact ⟨a, r, rfl⟩
+
+theorem IRel.step {S : Bytes} {iw : IWorld} {a : Stream} (r : IRel S iw a) (op : IOp) :
+    ∃ a', IRel S (iw.step op).1 a' ∧ IRef.next S a.cur (op, (iw.step op).2) = some a'.cur := by
   cases op with
+  | fetch blk => exact ⟨a, r.fetch blk, by simp [IWorld.step, IRef.next]⟩
+  | store =>
+    obtain ⟨a', r', hc⟩ := r.store
+    exact ⟨a', r', by simp [IWorld.step, IRef.next, hc]⟩
   | feed blk =>
     obtain ⟨a', r', hc⟩ := r.feed blk
-    exact ⟨a', r', by simp [World.istep, IRef.next, hc]⟩
+    exact ⟨a', r', by simp [IWorld.step, IRef.next, hc]⟩
   | read n =>
-    obtain ⟨h1, h2, h3, h4⟩ := r.get n
-    refine ⟨_, h1, ?_⟩
-    have hlen : (w.b.get n).2.length ≤ n := by rw [h2]; simp only [List.length_take]; omega
-    simp only [World.istep, IRef.next]
-    rw [if_pos ⟨hlen, h3⟩, h4]
+    obtain ⟨h1, h2, h3, h4⟩ := r.rel.get n
+    have hk := Stream.get_keeps a r.rel.inv n
+    refine ⟨_, ⟨h1, ?_⟩, ?_⟩
+    · have := r.room
+      show iw.held.length ≤ (a.get n).1.size - ((a.get n).1.acc.length - (a.get n).1.low)
+      rw [hk.1, hk.2.1]; omega
+    · have hlen : (iw.w.b.get n).2.length ≤ n := by
+        have : (iw.virt.b.get n).2 = (a.acc.drop a.cur).take n := h2
+        show (iw.virt.b.get n).2.length ≤ n
+        rw [this]; simp only [List.length_take]; omega
+      simp only [IWorld.step, IRef.next]
+      rw [if_pos ⟨hlen, h3⟩]
+      exact congrArg some h4.symm
   | seek p =>
-    obtain ⟨r', hok, hpos⟩ := r.seek p
+    obtain ⟨r', hok, hpos⟩ := r.rel.seek p
     have hsc := Stream.seek_cur a p
-    refine ⟨_, r', ?_⟩
-    simp only [World.istep, IRef.next, WRes.seekOk, hpos]
-    by_cases hq : (a.seek p).1.cur = p
-    · simp [hq]
-    · cases hb : (a.seek p).2
-      · simp [hsc.2 hb, hq]; intro h; rw [hsc.2 hb] at hq; exact absurd h hq
-      · exact absurd (hsc.1 hb) hq
+    have hk := Stream.seek_keeps a p
+    refine ⟨_, ⟨r', ?_⟩, ?_⟩
+    · have := r.room
+      show iw.held.length ≤ (a.seek p).1.size - ((a.seek p).1.acc.length - (a.seek p).1.low)
+      rw [hk.1, hk.2.1, hk.2.2]; exact this
+    · have hpos' : (iw.w.b.seek p).1.pos = (a.seek p).1.cur := hpos
+      simp only [IWorld.step, IRef.next, WRes.seekOk, hpos']
+      by_cases hq : (a.seek p).1.cur = p
+      · simp [hq]
+      · cases hb : (a.seek p).2
+        · simp [hsc.2 hb, hq]; intro h; rw [hsc.2 hb] at hq; exact absurd h hq
+        · exact absurd (hsc.1 hb) hq
   | protect b =>
-    obtain ⟨r', hc⟩ := r.protect b
-    exact ⟨_, r', by simp [World.istep, IRef.next, hc]⟩
+    obtain ⟨r', hc⟩ := r.rel.protect b
+    have hk := Stream.setProtected_keeps a b
+    refine ⟨_, ⟨r', ?_⟩, by simp [IWorld.step, IRef.next, hc]⟩
+    have := r.room
+    show iw.held.length ≤ (a.setProtected b).1.size - ((a.setProtected b).1.acc.length - (a.setProtected b).1.low)
+    rw [hk.1, hk.2.1, hk.2.2.1]; exact this
 
-theorem Rel.irun {S : Bytes} {w : World} {a : Stream} (r : Rel S w a) (ops : List IOp) :
-    IRef.ok S a.cur (ops.zip (w.irun ops).2) ∧ ∃ a', Rel S (w.irun ops).1 a' := by
-  induction ops generalizing w a with
+theorem IRel.run {S : Bytes} {iw : IWorld} {a : Stream} (r : IRel S iw a) (ops : List IOp) :
+    IRef.ok S a.cur (ops.zip (iw.run ops).2) ∧ ∃ a', IRel S (iw.run ops).1 a' := by
+  induction ops generalizing iw a with
   | nil => exact ⟨trivial, a, r⟩
   | cons op ops ih =>
-    obtain ⟨a', r', hn⟩ := r.istep op
-    simp only [World.irun, List.zip_cons_cons, IRef.ok, hn]
+    obtain ⟨a', r', hn⟩ := r.step op
+    simp only [IWorld.run, List.zip_cons_cons, IRef.ok, hn]
     exact ih r'
+
+theorem IRel.init (size H : Nat) (prot : Bool) (hH : 1 ≤ H) (S : Bytes) (ks : List Nat) :
+    IRel S (IWorld.init size H prot S ks) (Stream.init size H prot) :=
+  ⟨⟨rfl, Stream.init_inv size H prot hH, rfl⟩, Nat.zero_le _⟩
+
+/-- end of stream is only ever flagged when nothing is left to fetch or to store -/
+def IWorld.StopOk (iw : IWorld) : Prop := iw.stopped = true → iw.held = [] ∧ iw.w.src.rest = []
+
+theorem IWorld.fetch_stopOk (iw : IWorld) (h : iw.StopOk) (blk : Nat) (hblk : 1 ≤ blk) :
+    (iw.fetch blk).1.StopOk := by
+  unfold IWorld.fetch
+  split
+  · exact h
+  · split
+    · intro hst
+      have hst' : (iw.w.src.read blk).2 = [] := by simpa [List.isEmpty_iff] using hst
+      have hs := Src.read_spec iw.w.src blk
+      have hrest : iw.w.src.rest = [] := by
+        apply Classical.byContradiction
+        intro hne
+        exact Src.read_nonempty iw.w.src blk hblk hne hst'
+      refine ⟨by simp [IWorld.held, hst'], ?_⟩
+      have := hs.1
+      rw [hst', List.nil_append, hrest] at this
+      exact this
+    · exact h
+
+theorem IWorld.store_stopOk (iw : IWorld) (h : iw.StopOk) : iw.store.1.StopOk := by
+  unfold IWorld.store
+  split
+  · intro hst
+    exact ⟨by simp [IWorld.held], (h hst).2⟩
+  · exact h
+
+theorem IWorld.step_stopOk (iw : IWorld) (h : iw.StopOk) (op : IOp) (hop : op.blockOk = true) :
+    (iw.step op).1.StopOk := by
+  cases op with
+  | fetch blk => exact IWorld.fetch_stopOk iw h blk (by simpa [IOp.blockOk] using hop)
+  | store => exact IWorld.store_stopOk iw h
+  | feed blk =>
+    simp only [IWorld.step, IWorld.feed]
+    split
+    · exact IWorld.store_stopOk _ (IWorld.fetch_stopOk iw h blk (by simpa [IOp.blockOk] using hop))
+    · exact h
+  | read n => exact h
+  | seek p => exact h
+  | protect b => exact h
+
+theorem IWorld.run_stopOk (iw : IWorld) (h : iw.StopOk) (ops : List IOp)
+    (hops : ∀ op ∈ ops, op.blockOk = true) : (iw.run ops).1.StopOk := by
+  induction ops generalizing iw with
+  | nil => exact h
+  | cons op ops ih =>
+    exact ih _ (IWorld.step_stopOk iw h op (hops op (List.mem_cons_self)))
+      (fun o ho => hops o (List.mem_cons_of_mem _ ho))
 
 /-! ### histories without seeks: the answers concatenate to a prefix -/
 
@@ -568,12 +725,6 @@ theorem WRef.concat_noSeek (S : Bytes) (c : Nat) (ops : List WOp) (rs : List WRe
           simpa [WRes.bytes] using ih c rs hlen' hok hns'
 
 /-! ### progress: unprotected, a read of ≥ 1 byte is empty only at the end of the source -/
-
-theorem Src.read_nonempty (s : Src) (n : Nat) (hn : 1 ≤ n) (hr : s.rest ≠ []) : (s.read n).2 ≠ [] := by
-  unfold Src.read
-  split
-  · simp only [ne_eq, List.take_eq_nil_iff, not_or]; exact ⟨by omega, hr⟩
-  · simp only [ne_eq, List.take_eq_nil_iff, not_or]; exact ⟨by omega, hr⟩
 
 theorem Rel.read_progress {S : Bytes} {w : World} {a : Stream} (r : Rel S w a) (n : Nat) (hn : 1 ≤ n)
     (hprot : a.prot = false) (hsz : a.headroom ≤ a.size) (hmore : a.cur < S.length) :
